@@ -549,6 +549,11 @@ func checkTimechart(q *model.StatsQuery, text string, sr *sut.SearchResult, matc
 					ex := model.ExpectMeasure(byVal[val], m, kinds)
 					key := m.Key() + ": " + val
 					v, present := b.b.Vals[key]
+					if !present && !ex.DontCare && ex.AltID == "C04-earliest-latest-null-bool" && pt.KnownFindingOpen(ex.AltID) {
+						// same finding on the split-by path: the null taken from the first/last event drops the series
+						o.Known(ex.AltID)
+						continue
+					}
 					if err := compareMeasure(key, v, present, ex, true, o); err != nil {
 						return fmt.Errorf("bucket [%d,+%d) series %q: %v", b.start, q.SpanMs, val, err)
 					}
